@@ -1,8 +1,11 @@
 import CacheProofs.Props.C08
 import CacheProofs.Props.C08L
+import CacheProofs.Props.C08S
 open Cache.Linz
 #print axioms C08_witness_sound
 #print axioms C08_verdict_sound
 #print axioms C08_read_linearizes
 #print axioms C08_linearization_points
 #print axioms C08_single_section_ops_linearizable
+#print axioms C08_search_complete
+#print axioms C08_notlin_verdict_sound
